@@ -106,6 +106,18 @@ def run_variant(args):
         shutil.rmtree(tmp, ignore_errors=True)
 
 
+_ANCH = {}
+
+
+def _anchored(prop, rel):
+    import fnmatch
+    if not _ANCH:
+        for line in open(os.path.join(VERIF, 'properties.jsonl')):
+            pr = json.loads(line)
+            _ANCH[pr['id']] = pr['anchors']['files']
+    return any(fnmatch.fnmatch(rel, pt) for pt in _ANCH.get(prop, []))
+
+
 def variants_for(prop):
     from .variants import VARIANTS
     out = []
@@ -121,8 +133,15 @@ def variants_for(prop):
             patch = os.path.join(sd, d, 'patch.diff')
             if os.path.exists(meta) and os.path.exists(patch):
                 m = json.load(open(meta))
-                if m.get('property') == prop and m.get('expected', 'caught') \
-                        == 'caught':
+                if m.get('kind') == 'twin':
+                    # a confirmed behaviour-preserving change: silent for its
+                    # own property and for every property anchored in a file
+                    # it touches
+                    if m.get('property') == prop or any(
+                            _anchored(prop, f) for f in m.get('files', [])):
+                        out.append(('twin', 'seeded/' + d, None, patch))
+                elif m.get('property') == prop and \
+                        m.get('expected', 'caught') == 'caught':
                     out.append(('mutant', 'seeded/' + d, None, patch))
     return out
 
